@@ -1,5 +1,59 @@
 ----------------------------- MODULE GenProps -----------------------------
-EXTENDS Trees
-F_Generator(T, args, res) == {}
+(***************************************************************************)
+(* Layer P for the tree generators and the topology enumerator (C16).       *)
+(* T is the projection of the generated tree exactly as returned (index     *)
+(* fields included: they must be ready for use without re-indexing).        *)
+(***************************************************************************)
+EXTENDS CalcProps
+
+RECURSIVE Pow2G(_)
+Pow2G(n) == IF n <= 0 THEN 1 ELSE 2 * Pow2G(n - 1)
+RECURSIVE OddFact(_)
+OddFact(k) == IF k <= 1 THEN 1 ELSE k * OddFact(k - 2)      \* k!! for odd k
+
+DepthOf(V, n) == Cardinality(V.anc[n]) - 1
+InnerNbs(V, n) == Cardinality({m \in Inner(V) : m # n /\ (V.par[m] = n \/ (n # V.root /\ V.par[n] = m))})
+
+ShapeOK(V, args) ==
+  CASE args.gen = "caterpillar" -> \A n \in Inner(V) : InnerNbs(V, n) <= 2
+    [] args.gen = "balanced" ->
+         IF args.rooted THEN \A t \in V.tips : DepthOf(V, t) = args.n
+         ELSE \E x \in RootKids(V) : \A t \in V.tips : DepthOf(V, t) = IF x \in V.anc[t] THEN args.n ELSE args.n - 1
+    [] args.gen = "star" -> Inner(V) = {V.root}
+    [] OTHER -> TRUE
+
+\* res.len4[e] : branch lengths in 10^-4 units (NIL4 when absent); res.ntips = number of tips requested
+F_Generator(T, args, res) ==
+  LET wf == WFBroken(T)
+  IN  IF wf # {} THEN {"GeneratedWellFormed." \o w : w \in wf}
+      ELSE LET V == View(T)
+               N == res.ntips
+           IN  Fail("GeneratedTipCount", Cardinality(V.tips) = N /\ UniqueNames(V) /\ \A t \in V.tips : V.nm[t] # "")
+               \cup Fail("GeneratedBinaryAndRootedness",
+                         IF args.gen = "star" THEN RootDeg(V) = N
+                         ELSE Binary(V) /\ RootDeg(V) = (IF args.rooted THEN 2 ELSE 3))
+               \cup Fail("GeneratedLengths", \A e \in EdgeIds(T) : res.len4[e] >= 0)
+               \cup Fail("GeneratedShape", ShapeOK(V, args))
+               \cup F_IndexFresh(T, V, T.idx, T.rank)
+               \cup F_Enum(T, V, T.enum)
+
+\* trees : projections of all enumerated topologies
+RootedCanon(V)   == {V.below[n] : n \in NonRoot(V)}
+F_TopologiesOn(Ts, args) ==
+  LET n  == args.n
+      Vs == TLCEval([i \in 1..Len(Ts) |-> View(Ts[i])])
+      names == Vs[1].names
+  IN  Fail("TopologyCount", Len(Ts) = OddFact(IF args.rooted THEN 2 * n - 3 ELSE 2 * n - 5))
+      \cup Fail("TopologiesAreBinaryOnTheTips",
+                \A i \in 1..Len(Ts) : /\ IF args.rooted
+                                         \* a rooted topology is returned either with a bifurcating root or hanging from a
+                                         \* root of degree one (the enumerator's representation): binary below it
+                                         THEN \/ Binary(Vs[i]) /\ RootDeg(Vs[i]) = 2
+                                              \/ RootDeg(Vs[i]) = 1 /\ \A x \in NonRoot(Vs[i]) : Vs[i].deg[x] \in {1, 3}
+                                         ELSE Binary(Vs[i]) /\ RootDeg(Vs[i]) = 3
+                                      /\ Vs[i].names = names /\ Cardinality(Vs[i].tips) = n /\ UniqueNames(Vs[i]))
+      \cup Fail("TopologiesPairwiseDistinct",
+                Cardinality({IF args.rooted THEN RootedCanon(Vs[i]) ELSE NTSplits(Vs[i]) : i \in 1..Len(Ts)}) = Len(Ts))
 F_Topologies(args, res) == {}
+
 =============================================================================
